@@ -132,3 +132,32 @@ A(M("w3r4-dictmemo-frame", ["C15", "C09"], P2, None, None, "memo-shared-result",
     ("    if isinstance(content, str):\n        lines = content.splitlines()", "    if isinstance(content, str) and \"\\n\" not in content:\n        return parse_pdb_text(content + \"\\n\")\n    if isinstance(content, str):\n        lines = content.splitlines()")]))
 A(M("w3r4-dictmemo-int-silent", ["C15", "C09"], P2, None, None, kind="silent", edits=[
     ("def can_write_pdb(", "_LIMITS = {}\n\n\ndef pdb_limit(field: str) -> int:\n    if field not in _LIMITS:\n        _LIMITS[field] = {\"serial\": 99999, \"resSeq\": 9999, \"chainID\": 1}[field]\n    return _LIMITS[field]\n\n\ndef can_write_pdb(")]))
+
+# ---- what the representatives do not reach: data-dependent exits (sa/fragment.py:coverage / unreached_exits)
+A(M("w3r4-pdb-skip-hydrogens", ["C08"], PA, "            atom_name = line[12:16].strip()\n", "            atom_name = line[12:16].strip()\n            if atom_name.startswith(\"H\"):\n                continue\n", "pdb-atom-branch"))
+A(M("w3r4-cif-skip-bad-coordinates", ["C08"], PA, "                x = float(row_dict[\"Cartn_x\"])\n                y = float(row_dict[\"Cartn_y\"])\n                z = float(row_dict[\"Cartn_z\"])\n", "                try:\n                    x = float(row_dict[\"Cartn_x\"])\n                    y = float(row_dict[\"Cartn_y\"])\n                    z = float(row_dict[\"Cartn_z\"])\n                except ValueError:\n                    continue\n", "cif-row-skip"))
+A(M("w3r4-write-pdb-skip-zero-occupancy", ["C09"], P2, "        # --- MODEL/ENDMDL Records ---\n", "        if atom_data[\"occupancy\"] == 0.0:\n            continue\n\n        # --- MODEL/ENDMDL Records ---\n", "pdb-round-trip"))
+A(M("w3r4-fit-returns-input-on-nan", ["C10"], P2, "    # 3. Renumber Atom Serials\n    new_serial_col = \"new_serial\"", "    if df_fitted[resseq_col].isnull().any():\n        return df\n\n    # 3. Renumber Atom Serials\n    new_serial_col = \"new_serial\"", "result"))
+A(M("w3r4-fit-returns-input-on-error", ["C10"], P2, "    df_fitted[resseq_col] = df_fitted[resseq_col].astype(\"Int64\")\n\n    # 3. Renumber", "    try:\n        df_fitted[resseq_col] = df_fitted[resseq_col].astype(\"Int64\")\n    except (TypeError, ValueError):\n        return df\n\n    # 3. Renumber", "result"))
+A(M("w3r4-write-pdb-early-return-request-silent", ["C09"], P2, "    buffer = io.StringIO()\n    format_type = df.attrs.get(\"format\", \"PDB\")  # Assume PDB if not specified\n", "    buffer = io.StringIO()\n    format_type = df.attrs.get(\"format\", \"PDB\")  # Assume PDB if not specified\n    if output is not None and not isinstance(output, str) and not hasattr(output, \"write\"):\n        raise TypeError(\"output must be a path or a file-like object\")\n", kind="silent"))
+
+# ---- parse_cif evaluated on one atom_site row per class
+A(M("w3r4-cif-occupancy-default-one", ["C08"], PA, "                    else None\n                )\n\n                atoms_to_process.append(", "                    else 1.0\n                )\n\n                atoms_to_process.append(", ["cif-items", "null-markers"]))
+A(M("w3r4-cif-icode-question-only", ["C08"], PA, "                if insertion_code in (\"?\", \".\"):", "                if insertion_code in (\"?\",):", "null-markers"))
+A(M("w3r4-cif-auth-number-from-label", ["C08"], PA, "                auth_residue_number = try_parse_int(row_dict.get(\"auth_seq_id\", None))\n                auth_residue_name = row_dict.get(\"auth_comp_id\", None)\n                insertion_code = row_dict.get(\"pdbx_PDB_ins_code\", None)", "                auth_residue_number = try_parse_int(row_dict.get(\"label_seq_id\", None))\n                auth_residue_name = row_dict.get(\"auth_comp_id\", None)\n                insertion_code = row_dict.get(\"pdbx_PDB_ins_code\", None)", "cif-items"))
+A(M("w3r4-cif-model-or-default-silent", ["C08", "C15"], PA, "                model = int(row_dict.get(\"pdbx_PDB_model_num\", \"1\"))\n", "                model = int(row_dict.get(\"pdbx_PDB_model_num\") or 1)\n", kind="silent"))
+A(M("w3r4-cif-row-helper-silent", ["C08", "C15"], PA, None, None, kind="silent", edits=[
+    ("def parse_cif(\n", "def _optional_float(row_dict, item):\n    value = row_dict.get(item, \".\")\n    return None if value in (\"?\", \".\") else float(value)\n\n\ndef parse_cif(\n"),
+    ("                occupancy = (\n                    float(row_dict[\"occupancy\"])\n                    if row_dict.get(\"occupancy\", \".\") not in (\"?\", \".\")\n                    else None\n                )\n", "                occupancy = _optional_float(row_dict, \"occupancy\")\n")]))
+A(M("w3r4-cif-row-helper-one-marker", ["C08"], PA, None, None, "null-markers", edits=[
+    ("def parse_cif(\n", "def _optional_float(row_dict, item):\n    value = row_dict.get(item, \"?\")\n    return None if value == \"?\" else float(value)\n\n\ndef parse_cif(\n"),
+    ("                occupancy = (\n                    float(row_dict[\"occupancy\"])\n                    if row_dict.get(\"occupancy\", \".\") not in (\"?\", \".\")\n                    else None\n                )\n", "                occupancy = _optional_float(row_dict, \"occupancy\")\n")]))
+
+# ---- state that survives a call: module-level containers, the caller's table (checks/w3cross.py)
+A(M("w3r4-pdb-modified-shared", ["C08"], PA, None, None, "shared-state", edits=[
+    ("    modified: Dict[Union[ResidueLabel, ResidueAuth], str] = {}\n    model = 1\n", "    modified = _MODIFIED\n    model = 1\n"),
+    ("def parse_pdb(\n", "_MODIFIED: Dict = {}\n\n\ndef parse_pdb(\n")]))
+A(M("w3r4-write-pdb-fills-input", ["C09"], P2, "    for _, row in df.iterrows():\n        atom_data = {}\n", "    if \"occupancy\" in df.columns:\n        df[\"occupancy\"] = df[\"occupancy\"].fillna(1.0)\n    for _, row in df.iterrows():\n        atom_data = {}\n", "argument-untouched"))
+A(M("w3r4-write-cif-tags-input", ["C09"], P2, "    format_type = df.attrs.get(\"format\", \"PDB\")\n\n    # Create a new DataContainer", "    format_type = df.attrs.get(\"format\", \"PDB\")\n    df.attrs[\"format\"] = \"mmCIF\"\n\n    # Create a new DataContainer", "argument-untouched"))
+A(M("w3r4-write-pdb-fills-copy-silent", ["C09"], P2, "    for _, row in df.iterrows():\n        atom_data = {}\n", "    table = df.copy()\n    for _, row in table.iterrows():\n        atom_data = {}\n", kind="silent"))
+A(M("w3r4-fit-chain-order-sorted-silent", ["C10"], P2, "    unique_chains = df[chain_col].unique()\n", "    unique_chains = sorted(df[chain_col].unique())\n", kind="silent"))
